@@ -344,7 +344,7 @@ func genC04policy(c *Ctx) {
 		c.Count("sel.pos=" + tag)
 	}
 	// one Select step under the real math/rand stream: the answer must be one the model allows
-	n = c.Scale(1500, 150000)
+	n = c.Scale(500, 150000)
 	for i := 0; i < n; i++ {
 		p, _ := policyPosition(c)
 		pol := []string{"u", "p"}[r.Intn(2)]
